@@ -224,7 +224,11 @@ def run_set(ctx, item):
     idx, dsdl_dir, roots, parsed = item
     R = random.Random("c05/%s/%s" % (ctx.seed, idx))
     wd = ctx.sub("work_%s" % idx)
+    i = idx if isinstance(idx, int) else 0
     specs = [dict(lang="c", name="c_any", flags=[]), dict(lang="cpp", std="c++14", name="cpp14"),
+             # the size bounds are the same under every language option: the option-specific fast paths must respect them too
+             [dict(lang="c", name="c_little", flags=["--target-endianness", "little"]),
+              dict(lang="c", name="c_big_noassert", flags=["--target-endianness", "big"], asserts=False)][i % 2],
              dict(lang="cpp", std=["c++17", "c++17-pmr", "c++20"][(idx if isinstance(idx, int) else 0) % 3], name="cpp_newer"), dict(lang="py", name="py")]
     if not ctx.quick:
         specs += [dict(lang="c", name="c_gcc", flags=[], kind="gcc"), dict(lang="cpp", std="c++14", name="cpp14_gcc", kind="gcc")]
